@@ -262,7 +262,9 @@ struct C04 : Scenario {
             double grow = emit(n - 1) - emit(0), expect = rate * (h.t[n - 1] - h.t[0]);   // d(emittance)/dt = e1 per step
             if (!(grow > 0.5 * expect && grow < 1.6 * expect + 0.02)) o.fail("C04.diffusion_only_rate", "diffusion only: emittance grew by " + fmt_g(grow, 4) + " over " + fmt_g(h.t.back(), 4) + " periods, configured diffusion gives " + fmt_g(expect, 4) + ctx);
         } else {
-            for (size_t i = 1; i < n; i++) if (std::fabs(emit(i) / emit(0) - 1) > 1e-3 + 1e-3 * h.t[i] + 0.25 * (double)d.angle * (double)d.angle + 1.3 * h.t[i] * std::pow((double)d.angle, 3)) { /* a round beam is not matched to the tilted invariant ellipse of a kick-drift map; its (sz^2+sE^2)/2 beats by ~theta as the true period (2pi/mu steps) slips against the nominal one */ o.fail("C04.neither_stays_put", "no damping/diffusion: length/spread moved from " + fmt_g(h.sz[0], 6) + "/" + fmt_g(h.se[0], 6) + " to " + fmt_g(h.sz[i], 6) + "/" + fmt_g(h.se[i], 6) + " (emittance ratio " + fmt_g(emit(i) / emit(0), 7) + ") within " + fmt_g(h.t[i], 3) + " periods" + ctx); break; }
+            // (plus the scheme's own diffusion: every map application broadens a blob resolved by few cells; observed 0.0077 x number
+            //  of steps x (cell/sigma)^4 on a 37-point grid with 80 steps per period: found with VERIF_SEED=3)
+            for (size_t i = 1; i < n; i++) if (std::fabs(emit(i) / emit(0) - 1) > 1e-3 + 1e-3 * h.t[i] + 0.25 * (double)d.angle * (double)d.angle + 1.3 * h.t[i] * std::pow((double)d.angle, 3) + 0.012 * h.t[i] * d.steps * std::pow(delta / cfg.zoom, 4)) { /* a round beam is not matched to the tilted invariant ellipse of a kick-drift map; its (sz^2+sE^2)/2 beats by ~theta as the true period (2pi/mu steps) slips against the nominal one */ o.fail("C04.neither_stays_put", "no damping/diffusion: length/spread moved from " + fmt_g(h.sz[0], 6) + "/" + fmt_g(h.se[0], 6) + " to " + fmt_g(h.sz[i], 6) + "/" + fmt_g(h.se[i], 6) + " (emittance ratio " + fmt_g(emit(i) / emit(0), 7) + ") within " + fmt_g(h.t[i], 3) + " periods" + ctx); break; }
         }
         if (bi == 0) o.sample = mode + " zoom=" + fmt_g(cfg.zoom, 3) + " emittance " + fmt_g(emit(0), 5) + " -> " + fmt_g(emit(n - 1), 5) + ctx;
         }
